@@ -13,7 +13,7 @@ import (
 func init() { Registry["C01"] = c01 }
 
 func c01(p *core.Prog, r *core.Report) {
-	r.Explain = "Decides structure of the fragmenting writer/reader state machines (not byte equality): (R1) frames cannot exceed 65535 bytes or wrap their size field: pooled frames have MaxFramePayloadSize payloads, size constants are consistent, stamped sizes are byte counts of the frame's own buffer; (R2) every fragment the writer obtains gets a chunk header written before the method returns on every non-error path (so every emitted frame has >= 1 chunk); (R3) the more-fragments flag: finish(false) happens only for the last argument and is followed by flush, doneSending and the Complete state, every other finish passes true, the flag is set exactly under that parameter, every flush is preceded by finish, and writer, reader and relay test the same mask; (R4) the writer's keep-fragment-open comparison is the exact negation of the next argument's precondition; (R5) chunk accounting: the bytes written, the bytes checksummed and the bytes counted are the same operand, and finish stores the count in the deferred header; (R6) after fetching a fragment inside the reader's Close, every path to success rejects a non-empty first chunk (it belongs to the argument being closed) and advances to the following chunk; (R7) Close of the last argument succeeds only with no chunks and no fragments remaining. (R8) io contracts at the argument seam: a successful Write returns the running total of the pieces accepted and continues with the unwritten rest, Read returns the bytes copied, and EnsureEmpty tests the byte count before any return (data delivered together with io.EOF is still reported). (R9) fragments carry the checksum of their own bytes: pooled checksum objects are not read after release and relays re-stamp what they rewrite (shared with C02). Frames already queued for a call are received before the connection's error is returned (shared with C04-R4); the scratch buffers of the byte codec are not used after being returned to their sync.Pool. ArgWriteHelper closes the argument writer only after a successful write (a failed write is not turned into a complete, truncated argument; shared with C10); a message's checksum object and a fragment's frame are released only by the code that owns the message's life cycle, and completing a response does not release the request's frames."
+	r.Explain = "Decides structure of the fragmenting writer/reader state machines (not byte equality): (R1) frames cannot exceed 65535 bytes or wrap their size field: pooled frames have MaxFramePayloadSize payloads, size constants are consistent, stamped sizes are byte counts of the frame's own buffer; (R2) every fragment the writer obtains gets a chunk header written before the method returns on every non-error path (so every emitted frame has >= 1 chunk); (R3) the more-fragments flag: finish(false) happens only for the last argument and is followed by flush, doneSending and the Complete state, every other finish passes true, the flag is set exactly under that parameter, every flush is preceded by finish, and writer, reader and relay test the same mask; (R4) the writer's keep-fragment-open comparison is the exact negation of the next argument's precondition; (R5) chunk accounting: the bytes written, the bytes checksummed and the bytes counted are the same operand, and finish stores the count in the deferred header; (R6) after fetching a fragment inside the reader's Close, every path to success rejects a non-empty first chunk (it belongs to the argument being closed) and advances to the following chunk; (R7) Close of the last argument succeeds only with no chunks and no fragments remaining. (R8) io contracts at the argument seam: a successful Write returns the running total of the pieces accepted and continues with the unwritten rest, Read returns the bytes copied, and EnsureEmpty tests the byte count before any return (data delivered together with io.EOF is still reported). (R9) fragments carry the checksum of their own bytes: pooled checksum objects are not read after release and relays re-stamp what they rewrite (shared with C02). Frames already queued for a call are received before the connection's error is returned (shared with C04-R4); the scratch buffers of the byte codec are not used after being returned to their sync.Pool. ArgWriteHelper closes the argument writer only after a successful write (a failed write is not turned into a complete, truncated argument; shared with C10); a message's checksum object and a fragment's frame are released only by the code that owns the message's life cycle, and completing a response does not release the request's frames. The reader steps over the peer's checksum by the protocol's size table (farmhash included); a response's arg1 is read to its end before arg2 is handed out."
 	r.NotDecided = "equality of the bytes read and written for all length/split/read-size combinations and fragment capacities; checksum values (C02)."
 	r.Rule("C01-R1", "E6 invariants", 10, "frame <= 65535 bytes, size field cannot wrap")
 	r.Rule("C01-R2", "E6 paths", 3, "every fragment obtained gets a chunk header")
